@@ -46,6 +46,7 @@ class PartialProfile(Profile):
 
     # ------------------------------------------------------------------ phase 1
     def prepare(self, ctx) -> None:
+        pending: dict[str, list] = {}
         for q, ops in self.scope.items():
             if q not in ctx.prog.functions:
                 continue
@@ -66,8 +67,51 @@ class PartialProfile(Profile):
                             self.sites.append((q, n.lineno, text, cls, guarded))
                             if not guarded:
                                 classes.add(cls)
+                                if cls == "AttributeError" and text.startswith("self.") and text.count(".") == 2:
+                                    pending.setdefault(q, []).append((n, text.split(".")[1], len(self.sites) - 1))
                 if classes:
                     self.table.setdefault((q, id(n.ast)), set()).update(classes)
+
+        # a helper method dereferences self.<A> without a test of its own, but every call of it inside the scope sits
+        # behind the caller's test of self.<A> (nothing runs in between: the scope is a synchronous call tree)
+        for q, items in pending.items():
+            g = ctx.prog.functions[q]
+            if g.cls is None or g.parent is not None:
+                continue
+            sites_of_q = []
+            for cq in self.scope:
+                if cq == q or cq not in ctx.prog.functions:
+                    continue
+                cf = ctx.prog.functions[cq]
+                ccfg = ctx.flow.cfg(cq)
+                for cn in ccfg.nodes:
+                    for c in ctx.calls(cn):
+                        if isinstance(c.func, ast.Attribute) and isinstance(c.func.value, ast.Name) and c.func.value.id == "self" \
+                                and c.func.attr == g.name and q in ctx.res.resolve_call(cf, c, record=False):
+                            sites_of_q.append((cf, ccfg, cn))
+            if not sites_of_q:
+                continue
+            for n, attr, idx in items:
+                ok = True
+                for cf, ccfg, cn in sites_of_q:
+                    owner = cf
+                    while owner.parent is not None:
+                        owner = owner.parent
+                    if owner.cls is None or not ctx.prog.is_subclass(owner.cls.qualname, g.cls.qualname) and not ctx.prog.is_subclass(g.cls.qualname, owner.cls.qualname):
+                        ok = False
+                        break
+                    if ccfg.find_path(ccfg.entry.id, cn.id, avoid_edges=self._optional_guards(ctx, ccfg, attr)) is not None:
+                        ok = False
+                        break
+                if ok:
+                    s0 = self.sites[idx]
+                    self.sites[idx] = (s0[0], s0[1], s0[2] + " [tested by every caller in the scope]", s0[3], True)
+                    key = (q, id(n.ast))
+                    still = {self.sites[i][3] for (m, _a, i) in items if m is n and not self.sites[i][4]}
+                    if key in self.table:
+                        self.table[key] = {c for c in self.table[key] if c != "AttributeError"} | still
+                        if not self.table[key]:
+                            del self.table[key]
 
         for q, param in self.len_facts:
             self._length_fact(ctx, q, param)
